@@ -125,12 +125,11 @@ Section Compose.
       rewrite U2. repeat (rewrite app_length || rewrite map_length). destruct Hd as [Hne _]. destruct dgs; [contradiction|]. cbn [length]. lia.
   Qed.
 
-  Lemma retry_consumes : forall A (att : M A) r dgs a, r < usize_max -> consumes att dgs a ->
+  Lemma retry_consumes : forall A (att : M A) r dgs a, consumes att dgs a ->
     consumes (retry_on_timeout r att) dgs a.
   Proof.
-    intros A att r dgs a Hr H n u Hu Hf. destruct (H n u Hu Hf) as [n' [E [U F]]].
-    exists n'. unfold retry_on_timeout. destruct (usize_max <=? r) eqn:El; [lia|].
-    cbn [retry_loop]. rewrite E. auto.
+    intros A att r dgs a H n u Hu Hf. destruct (H n u Hu Hf) as [n' [E [U F]]].
+    exists n'. unfold retry_on_timeout. cbn [retry_loop]. rewrite E. auto.
   Qed.
 End Compose.
 
@@ -158,12 +157,12 @@ Section Query.
   Qed.
 
   Lemma request_consumes : forall e protocol reqkind retries o payload kind body,
-    retries < usize_max -> Forall challenge_ok (ro_challenges o) -> kind <> 65 ->
+    Forall challenge_ok (ro_challenges o) -> kind <> 65 ->
     delivered bz e protocol (transport_packets (ro_transport o) payload) kind body ->
     consumes (get_request_data bz port retries e protocol reqkind) (reply_packets o payload) body.
   Proof.
-    intros e protocol reqkind retries o payload kind body Hr Hch Hk Hd. unfold get_request_data, reply_packets.
-    apply (retry_consumes bz _ _ retries _ body Hr).
+    intros e protocol reqkind retries o payload kind body Hch Hk Hd. unfold get_request_data, reply_packets.
+    apply (retry_consumes _ _ retries _ body).
     exact (unit_consumes bz port e protocol reqkind _ (ro_challenges o) _ kind body Hk Hch Hd).
   Qed.
 
@@ -199,10 +198,10 @@ Section Query.
   Qed.
 
   Lemma players_consumes : forall e retries protocol l o, forallb (wf_player e) l = true -> lenN l < 256 ->
-    retries < usize_max -> reply_ok e protocol o (enc_players l) ->
+    reply_ok e protocol o (enc_players l) ->
     consumes (get_server_players bz port retries e protocol) (reply_packets o (enc_players l)) (map expected_player l).
   Proof.
-    intros e retries protocol l o Hwf Hlen Hr [Hch [kind [body [Hp [Hk Hd]]]]]. unfold get_server_players.
+    intros e retries protocol l o Hwf Hlen [Hch [kind [body [Hp [Hk Hd]]]]]. unfold get_server_players.
     apply consumes_app_nil.
     apply (consumes_bind _ _ _ _ _ _ body); [apply (request_consumes e protocol 85 _ o _ kind body); assumption|].
     assert (Hbody : body = tl (enc_players l)) by (rewrite Hp; reflexivity).
@@ -212,10 +211,10 @@ Section Query.
 
   Lemma rules_consumes : forall e retries protocol l o,
     forallb (fun kv => no_nul (fst kv) && no_nul (snd kv)) l = true -> lenN l < 65536 ->
-    retries < usize_max -> reply_ok e protocol o (enc_rules l) ->
+    reply_ok e protocol o (enc_rules l) ->
     consumes (get_server_rules bz port retries e protocol) (reply_packets o (enc_rules l)) (expected_rules e l).
   Proof.
-    intros e retries protocol l o Hwf Hlen Hr [Hch [kind [body [Hp [Hk Hd]]]]]. unfold get_server_rules.
+    intros e retries protocol l o Hwf Hlen [Hch [kind [body [Hp [Hk Hd]]]]]. unfold get_server_rules.
     apply consumes_app_nil.
     apply (consumes_bind _ _ _ _ _ _ body); [apply (request_consumes e protocol 86 _ o _ kind body); assumption|].
     assert (Hbody : body = tl (enc_rules l)) by (rewrite Hp; reflexivity).
@@ -246,7 +245,6 @@ Section Query.
     apply andb_prop in Hwf; destruct Hwf as [Hwf Hrl]. apply andb_prop in Hwf; destruct Hwf as [Hwf Hrw].
     apply andb_prop in Hwf; destruct Hwf as [Hwf Hpl]. apply andb_prop in Hwf; destruct Hwf as [Hwi Hpw].
     assert (Hpl' : lenN (vs_players st) < 256) by lia. assert (Hrl' : lenN (vs_rules st) < 65536) by lia.
-    assert (Hretr : ts_retries_or_default t < usize_max) by exact Hr.
     rewrite (query_structure bz port e g t).
     unfold valve_script.
     destruct (info_consumes e t st o Hwi Hs Hr R1 (net_init (map Datagram (valve_script st o g)) [] [])
@@ -266,10 +264,10 @@ Section Query.
     { destruct (g_players g) eqn:Eg.
       - exists n1. cbn [maybe_gather]. rewrite U1. cbn [app]. auto.
       - destruct (gather_consumes _ (get_server_players bz port (ts_retries_or_default t) e (info_protocol_of (vs_info st))) Try _ _
-                    ltac:(discriminate) (players_consumes e _ _ _ (vo_players o) Hpw Hpl' Hretr R2) n1 _
+                    ltac:(discriminate) (players_consumes e _ _ _ (vo_players o) Hpw Hpl' R2) n1 _
                     ltac:(rewrite U1, map_app; reflexivity) F1) as [n2 [E2 [U2 F2]]]. exists n2. auto.
       - destruct (gather_consumes _ (get_server_players bz port (ts_retries_or_default t) e (info_protocol_of (vs_info st))) Enforce _ _
-                    ltac:(discriminate) (players_consumes e _ _ _ (vo_players o) Hpw Hpl' Hretr R2) n1 _
+                    ltac:(discriminate) (players_consumes e _ _ _ (vo_players o) Hpw Hpl' R2) n1 _
                     ltac:(rewrite U1, map_app; reflexivity) F1) as [n2 [E2 [U2 F2]]]. exists n2. auto. }
     destruct P as [n2 [E2 [U2 F2]]]. unfold mbind at 1. rewrite E2.
     (* rules *)
@@ -278,10 +276,10 @@ Section Query.
     { destruct (g_rules g) eqn:Eg.
       - exists n2. reflexivity.
       - destruct (gather_consumes _ (get_server_rules bz port (ts_retries_or_default t) e (info_protocol_of (vs_info st))) Try _ _
-                    ltac:(discriminate) (rules_consumes e _ _ _ (vo_rules o) Hrw Hrl' Hretr R3) n2 []
+                    ltac:(discriminate) (rules_consumes e _ _ _ (vo_rules o) Hrw Hrl' R3) n2 []
                     ltac:(rewrite U2, app_nil_r; reflexivity) F2) as [n3 [E3 _]]. exists n3. exact E3.
       - destruct (gather_consumes _ (get_server_rules bz port (ts_retries_or_default t) e (info_protocol_of (vs_info st))) Enforce _ _
-                    ltac:(discriminate) (rules_consumes e _ _ _ (vo_rules o) Hrw Hrl' Hretr R3) n2 []
+                    ltac:(discriminate) (rules_consumes e _ _ _ (vo_rules o) Hrw Hrl' R3) n2 []
                     ltac:(rewrite U2, app_nil_r; reflexivity) F2) as [n3 [E3 _]]. exists n3. exact E3. }
     destruct Q as [n3 E3]. unfold mbind. rewrite E3. reflexivity.
   Qed.
